@@ -185,6 +185,11 @@ def cases(rng, tier):
 def run(res, tier, seed):
     rng = np.random.default_rng(seed)
     exprs = []
+    # the same kind of tissue in very small and very large length units (cells of 1e-5 / 1e7 length units: areas far from 1)
+    for sc in (1e-6, 1e6):
+        small = gen.similarity(gen.voronoi_tissue(rng, n=int(rng.integers(20, 40)), npts=2), scale=sc)
+        if len(small["cells"]) >= 4:
+            check_case(res, small, int(rng.integers(2, 7)), float(rng.uniform(0.8, 3.0)), rng, exprs, f"unit-scale{sc:g}")
     for spec, label in cases(rng, tier):
         grids = sorted({int(rng.integers(1, 11)), int(rng.integers(1, 11)), 12 if label == "t0" else int(rng.integers(1, 13))})
         for g in grids:
